@@ -371,7 +371,9 @@ func c04(c *core.Ctx) {
 							}
 							bad = r
 						}
-						if bad != "" {
+						if det := detachingLayer(tr); bad == "" && det != "" {
+							c.Fail(key, hs.Pos(), "the handler's context passes through %s, which keeps the values of its parent but drops its deadline and cancellation: the caller's deadline and cancel do not reach the handler", det)
+						} else if bad != "" {
 							c.Fail(key, hs.Pos(), "handler context has root %q (roots: %v): it does not descend from the caller's context, so cancellation / deadline would not reach the handler", bad, tr.rootList())
 						} else {
 							c.Ok(key, hs.Pos(), "roots %v through %v", tr.rootList(), tr.layerList())
@@ -502,7 +504,9 @@ func c04(c *core.Ctx) {
 						bad = r
 					}
 				}
-				if bad != "" {
+				if det := detachingLayer(tr); bad == "" && det != "" {
+					c.Fail(key, call.Pos(), "the request's context passes through %s, which drops the deadline and cancellation of its parent: cancelling the call does not abort the exchange, and no timeout is sent", det)
+				} else if bad != "" {
 					c.Fail(key, call.Pos(), "request context has root %q (roots %v): not derived from the caller's context", bad, tr.rootList())
 				} else {
 					c.Ok(key, call.Pos(), "request bound to a context with roots %v", tr.rootList())
@@ -1142,4 +1146,35 @@ func holdsReceiver(m *ssa.Function) bool {
 		}
 	})
 	return ok
+}
+
+// detachingLayer: a step on the derivation chain that keeps the parent's values
+// but not its deadline and cancellation (context.WithoutCancel, or a wrapper
+// type of the module that overrides Done or Deadline); "" if there is none.
+func detachingLayer(tr *ctxTraceResult) string {
+	for _, l := range tr.layerList() {
+		if strings.Contains(l, "WithoutCancel") {
+			return l
+		}
+		if strings.HasPrefix(l, "wrap:") && theProg != nil {
+			name := strings.TrimPrefix(l, "wrap:")
+			for _, pk := range []string{"inprocgrpc", "httpgrpc", "internal", ""} {
+				nt := theProg.Named(pk, name)
+				if nt == nil {
+					continue
+				}
+				for _, t := range []types.Type{nt, types.NewPointer(nt)} {
+					ms := types.NewMethodSet(t)
+					for i := 0; i < ms.Len(); i++ {
+						m := ms.At(i)
+						// declared on the wrapper itself (not promoted from the embedded context)
+						if (m.Obj().Name() == "Done" || m.Obj().Name() == "Deadline" || m.Obj().Name() == "Err") && len(m.Index()) == 1 {
+							return l + " (overrides " + m.Obj().Name() + ")"
+						}
+					}
+				}
+			}
+		}
+	}
+	return ""
 }
